@@ -1,10 +1,229 @@
-"""C20: structural clauses (see DESIGN.md section 4)."""
+"""C20 attention: mask blindness (G16), one sequence dimension (G13), bias table (G3/G13),
+head split/merge (G13/G1)."""
 from __future__ import annotations
 
-from rules import fwd as R_fwd
+import ast
+
+from sa.astutil import call_name, guards_of, is_neg_inf, kwarg, parent_map, u
+from sa.defuse import ReachingDefs
+from sa.model import AnalysisError, own_calls, own_nodes
+from sa.resolve import bind_args
 from .common import Ctx, plumbing
+
+MOD = "_attn"
 
 
 def run(ctx: Ctx):
-    plumbing(ctx, 'S1')
-    return dict(explanation='plumbing clauses only (work in progress)', decided=['S1'], not_decided=[])
+    col, pkg, res = ctx.col, ctx.pkg, ctx.res
+    rel = pkg.module(MOD).relname
+    fwd = pkg.func(f"{MOD}::GlobalSoftAttention.forward")
+    where = f"{rel}::{fwd.qualname}"
+    rd = ReachingDefs(fwd.node)
+    pm = parent_map(fwd.node)
+
+    # ---- S1 blind to masked positions ------------------------------------------------------------------
+    sms = [c for c in own_calls(fwd.node) if call_name(c).endswith("softmax")]
+    if len(sms) != 1:
+        raise AnalysisError("C20: GlobalSoftAttention.forward does not call softmax exactly once")
+    sm = sms[0]
+    e_arg = sm.args[0]
+    fills = [c for c in own_calls(fwd.node) if isinstance(c.func, ast.Attribute) and c.func.attr == "masked_fill" and len(c.args) == 2]
+    wheres = [c for c in own_calls(fwd.node) if call_name(c) == "torch.where" and len(c.args) == 3]
+    ok_fill = False
+    detail = None
+    for c in fills:
+        m, v = c.args
+        neg = isinstance(m, ast.UnaryOp) and isinstance(m.op, ast.Invert) and u(m.operand) == "mask"
+        detail = u(c)
+        if neg and is_neg_inf(v):
+            gs = guards_of(pm, c)
+            ok_fill = any(u(t) == "mask is not None" and pol for t, pol in gs)
+    for c in wheres:
+        if u(c.args[0]) == "mask" and is_neg_inf(c.args[2]):
+            detail = u(c)
+            ok_fill = any(u(t) == "mask is not None" and pol for t, pol in guards_of(pm, c))
+    col.ob("G16", "S1", f"{where}::masked-scores-are--inf-before-softmax", ok_fill,
+           f"scores are masked by `{detail}`; masked-out (mask == False) positions must be set to -inf when a mask is "
+           f"given (fill of the NEGATED mask), otherwise the output depends on masked keys/values", rel,
+           sm.lineno, sample=detail)
+    # the value reaching softmax: every reaching definition is either the raw score (no mask) or the masked fill
+    srcs = []
+    if isinstance(e_arg, ast.Name):
+        for d in rd.defs_of(e_arg):
+            v = d.value
+            if isinstance(v, ast.Call) and u(v.func) == "self.score":
+                srcs.append("score")
+            elif isinstance(v, ast.Call) and (v in fills or v in wheres):
+                srcs.append("masked")
+            else:
+                srcs.append("other:" + u(v)[:30] if v is not None else "other")
+    col.ob("G16", "S1", f"{where}::softmax-input-is-(masked)-score", sorted(srcs) == ["masked", "score"],
+           f"softmax is applied to a value defined by {srcs}; expected the score, overwritten by its masked version when "
+           f"a mask is given", rel, sm.lineno, sample=srcs)
+    # nothing after the softmax re-introduces raw scores: the returned value derives from the softmax weights and value
+    ret = [st for st, _ in rd.return_envs][-1]
+    der = rd.derives(ret.value, stop=lambda d: isinstance(d.value, ast.Call) and d.value is sm)
+    names = {d.name for d in der.defs}
+    a_names = {d.name for d in rd.defs if d.value is sm}
+    ok_ret = bool(a_names & names) and "value" in der.params() and not any(
+        isinstance(d.value, ast.Call) and (u(d.value.func) == "self.score" or d.value in fills) for d in der.defs)
+    col.ob("G16", "S1", f"{where}::output-from-weights-and-values-only", ok_ret,
+           "the returned value does not derive from (softmax weights, value) alone: unmasked scores reach the output",
+           rel, ret.lineno, sample=u(ret.value))
+    shape_ok = isinstance(ret.value, ast.Call) and isinstance(ret.value.func, ast.Attribute) and ret.value.func.attr == "sum" \
+        and isinstance(ret.value.func.value, ast.BinOp) and isinstance(ret.value.func.value.op, ast.Mult)
+    col.ob("G16", "S1", f"{where}::output-is-weighted-sum", shape_ok,
+           f"the output `{u(ret.value)}` is not sum(weights * value): not a convex combination of values", rel, ret.lineno)
+
+    # ---- S2 one sequence dimension --------------------------------------------------------------------------
+    dims = {"softmax": u(sm.args[1]) if len(sm.args) > 1 else u(kwarg(sm, "dim")) if kwarg(sm, "dim") is not None else None,
+            "sum": u(ret.value.args[0]) if shape_ok and ret.value.args else None}
+    for cname in ("DotProductSoftAttention", "GeneralizedDotProductSoftAttention"):
+        sc = pkg.func(f"{MOD}::{cname}.score")
+        uq = [c for c in own_calls(sc.node) if isinstance(c.func, ast.Attribute) and c.func.attr == "unsqueeze" and u(c.func.value) == "query"]
+        dims[f"{cname}.score"] = u(uq[0].args[0]) if len(uq) == 1 else None
+        red = [c for c in own_calls(sc.node) if isinstance(c.func, ast.Attribute) and c.func.attr == "sum"]
+        col.ob("G13", "S2", f"{rel}::{cname}.score::reduces-feature-axis", len(red) == 1 and u(red[0].args[0]) == "-1",
+               f"{cname}.score reduces {[u(c) for c in red]}; the inner product runs over the last (feature) axis", rel, sc.line)
+    csa = pkg.func(f"{MOD}::_concat_soft_attention")
+    cs = pkg.func(f"{MOD}::ConcatSoftAttention.score")
+    calls = [c for c in own_calls(cs.node) if call_name(c) == "_concat_soft_attention"]
+    if len(calls) != 1:
+        raise AnalysisError("C20: ConcatSoftAttention.score does not call _concat_soft_attention once")
+    b = bind_args(calls[0], csa, False)
+    got = {p.name: u(a) for p, a, _ in b.pairs}
+    col.ob("G1", "S2", f"{rel}::ConcatSoftAttention.score::_concat_soft_attention-binding",
+           got == {"query": "query", "key": "key", "weight": "self.weight", "bias": "self.bias", "v": "self.v", "dim": "self.dim"},
+           f"_concat_soft_attention is called with {got}", rel, calls[0].lineno, sample=got)
+    uq = [c for c in own_calls(csa.node) if isinstance(c.func, ast.Attribute) and c.func.attr == "unsqueeze" and u(c.func.value) == "query"]
+    dims["_concat_soft_attention"] = ("self.dim" if len(uq) == 1 and u(uq[0].args[0]) == "dim" and got.get("dim") == "self.dim" else None)
+    col.ob("G13", "S2", f"{rel}::attention::one-sequence-dimension", set(dims.values()) == {"self.dim"},
+           f"the sequence dimension is used as {dims}; softmax, the weighted sum and every score function must all use "
+           f"self.dim", rel, fwd.line, sample=dims)
+    cat = [c for c in own_calls(csa.node) if call_name(c) == "torch.cat"]
+    col.ob("G13", "S2", f"{rel}::_concat_soft_attention::concat-(query,key)-on-features", len(cat) == 1 and u(cat[0].args[0]) == "[query, key]" and u(cat[0].args[1]) == "-1",
+           "query and key are not concatenated in (query, key) order over the feature axis (the weight is laid out as "
+           "query_size + key_size)", rel, csa.line)
+
+    # ---- S3 bias exactly where requested -------------------------------------------------------------------------
+    init = pkg.func(f"{MOD}::MultiHeadedAttention.__init__")
+    lins = {}
+    for n in own_nodes(init.node):
+        if isinstance(n, ast.Assign) and isinstance(n.value, ast.Call) and call_name(n.value) == "torch.nn.Linear" \
+                and isinstance(n.targets[0], ast.Attribute) and u(n.targets[0].value) == "self":
+            lins[n.targets[0].attr] = n.value
+    if set(lins) != {"WQ", "WK", "WV", "WC"}:
+        raise AnalysisError(f"C20: projections found: {sorted(lins)}")
+    for name, c in sorted(lins.items()):
+        bk = kwarg(c, "bias")
+        col.ob("G13", "S3", f"{rel}::MultiHeadedAttention.__init__::{name}(bias=bias_{name})", bk is not None and u(bk) == f"bias_{name}",
+               f"projection {name} is built with bias={u(bk) if bk is not None else 'default'}; expected bias_{name}", rel,
+               c.lineno, sample=u(c))
+    # ---- S4 head split / merge -----------------------------------------------------------------------------------------
+    dmap = {"WQ": ("query_size", "self.d_q"), "WK": ("key_size", "self.d_k"), "WV": ("value_size", "d_v")}
+    for name, (insz, dx) in dmap.items():
+        c = lins[name]
+        a0, a1 = u(c.args[0]), u(c.args[1])
+        okp = a0 == insz and a1 in (f"num_heads * {dx}", f"{dx} * num_heads", f"num_heads * self.{dx}" if not dx.startswith("self") else "")
+        col.ob("G13", "S4", f"{rel}::MultiHeadedAttention.__init__::{name}(in={insz}, out=num_heads*d)", okp,
+               f"{name} = Linear({a0}, {a1}); expected ({insz}, num_heads * {dx})", rel, c.lineno, sample=u(c))
+    c = lins["WC"]
+    col.ob("G13", "S4", f"{rel}::MultiHeadedAttention.__init__::WC(in=num_heads*d_v, out=out_size)",
+           u(c.args[0]) in ("d_v * num_heads", "num_heads * d_v") and u(c.args[1]) == "out_size",
+           f"WC = Linear({u(c.args[0])}, {u(c.args[1])})", rel, c.lineno)
+    ddefs = {}
+    for n in own_nodes(init.node):
+        if isinstance(n, ast.Assign) and isinstance(n.targets[0], ast.Attribute) and n.targets[0].attr in ("d_q", "d_k", "d_v"):
+            ddefs[n.targets[0].attr] = u(n.value)
+    col.ob("G13", "S4", f"{rel}::MultiHeadedAttention.__init__::head-sizes", ddefs == {
+        "d_q": "single_head_attention.query_size", "d_k": "single_head_attention.key_size", "d_v": "d_v"},
+        f"per-head sizes are {ddefs}", rel, init.line, sample=ddefs)
+    mf = pkg.func(f"{MOD}::MultiHeadedAttention.forward")
+    rdm = ReachingDefs(mf.node)
+    sha = [c for c in own_calls(mf.node) if u(c.func) == "self.single_head_attention"]
+    if len(sha) != 1:
+        raise AnalysisError("C20: MultiHeadedAttention.forward does not call the single-head attention once")
+    roles = []
+    for a in sha[0].args[:3]:
+        der = rdm.derives(a)
+        projs = {c.func.attr for c in der.calls() if isinstance(c.func, ast.Attribute) and u(c.func.value) == "self" and c.func.attr in lins}
+        unf = [c for c in der.calls() if call_name(c) == "unflatten"]
+        dsz = {u(c.args[2]) for c in unf if len(c.args) == 3}
+        src = der.params() - {"self"}
+        roles.append((sorted(projs), sorted(dsz), sorted(src)))
+    want = [(["WQ"], ["[self.num_heads, self.d_q]"], ["query"]), (["WK"], ["[self.num_heads, self.d_k]"], ["key"]),
+            (["WV"], ["[self.num_heads, self.d_v]"], ["value"])]
+    col.ob("G1", "S4", f"{rel}::MultiHeadedAttention.forward::(query, key, value)-projected-and-split", roles == want,
+           f"the single-head attention receives {roles}; expected (WQ(query), WK(key), WV(value)) each unflattened to "
+           f"[num_heads, d_x] with its own d_x, in that order", rel, sha[0].lineno, sample=roles)
+    m4 = sha[0].args[3] if len(sha[0].args) > 3 else None
+    okmask = False
+    if isinstance(m4, ast.Name):
+        vals = [u(d.value) for d in rdm.defs_of(m4) if d.kind != "param"]
+        okmask = vals == ["mask.unsqueeze(-2)"]
+    col.ob("G13", "S4", f"{rel}::MultiHeadedAttention.forward::mask-broadcast-over-heads", okmask,
+           "the mask is not unsqueezed on the head axis (-2) before the per-head attention", rel, sha[0].lineno)
+    ret = [st for st, _ in rdm.return_envs][-1]
+    okmerge = isinstance(ret.value, ast.Call) and u(ret.value.func) == "self.WC" and isinstance(ret.value.args[0], ast.Name) and any(
+        u(d.value).endswith(".flatten(-2)") for d in rdm.defs_of(ret.value.args[0]))
+    col.ob("G13", "S4", f"{rel}::MultiHeadedAttention.forward::heads-concatenated-then-WC", okmerge,
+           f"the result `{u(ret.value)}` is not WC applied to the heads flattened over the last two axes", rel, ret.lineno)
+    plumbing(ctx, "S3")
+    return dict(
+        explanation=(
+            "Decides for C20: (S1) when a mask is given the value reaching softmax is the score with the NEGATED mask "
+            "filled by -inf, and the output derives only from the softmax weights and value as sum(weights * value); "
+            "(S2) softmax, the weighted sum and all four score functions use the one sequence dimension self.dim, "
+            "inner products reduce the feature axis, concat order is (query, key); (S3) each projection W<X> is built "
+            "with bias=bias_W<X> and every bias flag is validated under its own name [F9 repaired]; (S4) projection "
+            "sizes num_heads * d_x, per-argument projection + unflatten with its own d_x in (query, key, value) order, "
+            "mask unsqueezed on the head axis, heads flattened before WC. NOT decided: convexity bounds, permutation "
+            "invariance, broadcasting equivalence (relations between pairs of runtime inputs)."),
+        decided=["S1", "S2", "S3", "S4"],
+        not_decided=["convex-combination bounds", "permutation invariance", "broadcast == explicit expansion"],
+        assumptions=["softmax(-inf) contributes exactly zero weight"],
+    )
+
+
+def _mutants():
+    from selftest.mutate import Mutant as M
+    A = "_attn.py"
+    return [
+        M("mask-not-negated", A, "e = e.masked_fill(~mask, -float('inf'))", "e = e.masked_fill(mask, -float('inf'))", "masked-scores-are--inf"),
+        M("mask-fill-zero", A, "e = e.masked_fill(~mask, -float('inf'))", "e = e.masked_fill(~mask, 0.0)", "masked-scores-are--inf"),
+        M("mask-after-softmax", A, "e = e.masked_fill(~mask, -float('inf'))\n        a = torch.nn.functional.softmax(e, self.dim)",
+          "a = torch.nn.functional.softmax(e, self.dim)\n        if mask is not None:\n            a = a * mask", "G16/S1"),
+        M("softmax-dim-0", A, "a = torch.nn.functional.softmax(e, self.dim)", "a = torch.nn.functional.softmax(e, 0)", "one-sequence-dimension"),
+        M("sum-dim-minus-1", A, "return (a.unsqueeze(-1) * value).sum(self.dim)", "return (a.unsqueeze(-1) * value).sum(-2)", "one-sequence-dimension"),
+        M("dot-unsqueeze-0", A, "query = query.unsqueeze(self.dim)\n        return (query * key).sum(-1) * self.scale_factor", "query = query.unsqueeze(0)\n        return (query * key).sum(-1) * self.scale_factor", "one-sequence-dimension"),
+        M("bias-wk-from-wq", A, "self.WK = torch.nn.Linear(key_size, num_heads * self.d_k, bias=bias_WK)", "self.WK = torch.nn.Linear(key_size, num_heads * self.d_k, bias=bias_WQ)", "WK(bias=bias_WK)"),
+        M("validate-sibling", A, "bias_WV = argcheck.is_bool(bias_WV, 'bias_WV')", "bias_WV = argcheck.is_bool(bias_WK, 'bias_WV')", "G3"),
+        M("key-split-with-dq", A, "key_heads = unflatten(key_heads, -1, [self.num_heads, self.d_k])", "key_heads = unflatten(key_heads, -1, [self.num_heads, self.d_q])", "projected-and-split"),
+        M("heads-kv-swapped", A, "self.single_head_attention(query_heads, key_heads, value_heads, mask)", "self.single_head_attention(query_heads, value_heads, key_heads, mask)", "projected-and-split"),
+        M("mask-unsqueeze-last", A, "mask = mask.unsqueeze(-2)", "mask = mask.unsqueeze(-1)", "mask-broadcast-over-heads"),
+        M("concat-order", A, "cat = torch.cat([query, key], -1)", "cat = torch.cat([key, query], -1)", "concat-(query,key)"),
+        M("concat-binding", A, "query, key, self.weight, self.bias, self.v, self.dim", "query, key, self.weight, self.v, self.bias, self.dim", "G1"),
+        M("wv-out-size", A, "self.WV = torch.nn.Linear(value_size, num_heads * d_v, bias=bias_WV)", "self.WV = torch.nn.Linear(value_size, d_v, bias=bias_WV)", "WV(in=value_size"),
+        M("twin:rename-e", A, "value_heads", "vh", "", -1, twin=True),
+    ]
+
+
+def selftest(ctx: Ctx):
+    from selftest.mutate import run_selftest
+    return run_selftest("C20", ctx.pkg.repo, _mutants(), floor=12)
+
+
+MANIFEST = dict(
+    level_text=(
+        "Static dataflow/table analysis (no execution) of the attention modules: the def-use rule that the value "
+        "reaching softmax is the score overwritten by a -inf fill of the negated mask, that the output is "
+        "sum(weights * value) deriving from weights and values only, agreement of the one sequence dimension across "
+        "softmax / weighted sum / all score functions, the per-projection bias table and the head split/merge size "
+        "table. Necessary conditions of 'blind to masked positions' and 'a bias exactly on the projections for which "
+        "one was requested'; convexity bounds and permutation invariance relate pairs of runtime inputs and are not "
+        "decided."),
+    level_note="Trusted: python ast; softmax(-inf) = 0 weight. F9 (bias_WK/bias_WV validated from bias_WQ) was found by G3 "
+               "and repaired.",
+    technique="static analysis: reaching-definition (def-use) rules, dimension/size table agreement, argcheck idiom lint, argument binding",
+    design_ref="DESIGN.md section 4 C20",
+)
